@@ -1,4 +1,5 @@
 """C15 — async_mutex gives mutual exclusion and never loses a waiter (v1 and v2 mutex)."""
+import os
 import time
 from .. import vlib
 from ..atomic import AtomicPart
@@ -7,9 +8,21 @@ from ..runner import run_check
 LIBS = ["async_mutex_v1.cpp", "async_mutex_v2.cpp", "atomic_intrusive_list.cpp", "inplace_stop_token.cpp"]
 V1 = ["v1_two", "v1_try", "v1_batch", "v1_three"]
 V2 = ["v2_handoff", "v2_handoff_stop", "v2_leak_seq", "v2_race_inline", "v2_fifo3", "v2_inline_stop",
-      "v2_cancel_first", "v2_race_try"]
+      "v2_cancel_first", "v2_race_try", "v2_handoff_try"]
 PROPS = ["UnifexModel.Props.C15", "UnifexModel.Props.C15_v2a", "UnifexModel.Props.C15_v2b", "UnifexModel.Props.C15_v2c",
-         "UnifexModel.Props.C15_v2d"]
+         "UnifexModel.Props.C15_v2d", "UnifexModel.Props.C15_v2e"]
+
+
+def forwarder_forwards_stop_token():
+    """The v2 model has one switch that follows the code: does the receiver that completion_forwarder
+    connects to the rescheduling schedule() forward the waiter's stop token (code as it stands,
+    DESIGN §8 #3 — model `mutexv2`, theorems *_safe_partial + v2_lock_leak_witness) or answer with
+    unstoppable_token (the repair — model `mutexv2fix`, theorems *_fixed_safe)?  Read from the source."""
+    try:
+        txt = open(os.path.join(vlib.REPO, "include", "unifex", "detail", "completion_forwarder.hpp")).read()
+    except OSError:
+        return True
+    return "unstoppable_token" not in txt
 LIST_SCENARIOS = ["l_push_pop", "l_pop_remove", "l_push_remove", "l_empty_probe"]
 
 
@@ -46,6 +59,9 @@ class ListLinPart:
             for h, sched in seen.items():
                 ans = driver.ask(f"ask alist lin | {h}")
                 cov["traces_validated_against_impl"] += 1
+                # informational: how many histories need the one-sided slack of empty() (see Proto/AList.lean)
+                if not driver.ask(f"ask alist strict | {h}").startswith("ok"):
+                    cov["alist_histories_needing_empty_slack"] = cov.get("alist_histories_needing_empty_slack", 0) + 1
                 if ans.startswith("ok"):
                     cov["distinct_nontrivial"] += 1
                 else:
@@ -60,16 +76,17 @@ class ListLinPart:
 
 
 def run(tier, seed, replay=None):
+    v2model = "mutexv2" if forwarder_forwards_stop_token() else "mutexv2fix"
     parts = [
         AtomicPart("mutexv1", "scn_c15.cpp", LIBS, "mutexv1", V1,
                    quick=dict(preemptions=2, max_execs=2500), random_execs=(200, 5000)),
-        AtomicPart("mutexv2", "scn_c15.cpp", LIBS, "mutexv2", V2,
+        AtomicPart("mutexv2", "scn_c15.cpp", LIBS, v2model, V2,
                    quick=dict(preemptions=2, max_execs=3500), random_execs=(200, 5000)),
         ListLinPart(),
     ]
     return run_check(
         "C15", tier, seed, PROPS, parts,
-        rule="every schedule (DFS, preemption-bounded, plus random/PCT walks) of 4 scenarios on the real v1::async_mutex and 8 on the real "
+        rule="every schedule (DFS, preemption-bounded, plus random/PCT walks) of 4 scenarios on the real v1::async_mutex and 9 on the real "
              "v2::async_mutex (plain receivers with an inplace_stop_source each and a manual deferred / inline scheduler) under the controlled "
              "scheduler; a case = one distinct observable history; non-trivial = admitted by the Lean model after at least one context switch",
         assumptions=["sequentially consistent atomics (memory orders and the Dekker fences are not distinguished)",
@@ -88,4 +105,5 @@ def run(tier, seed, replay=None):
                     "no stop request is pending between hand-off and delivery of the re-scheduled completion). The unguarded statement is FALSE for the "
                     "code as it stands: v2_lock_leak_witness / v2_leak_seq_always_leaks (completion_forwarder forwards the waiter's stop token, DESIGN §8 #3); "
                     "the witness history is reproduced by scenario v2_leak_seq on the real mutex in every schedule. "
+                    f"With the repaired forwarder (model mutexv2fix) the full property holds: v2_*_fixed_safe (Props/C15_v2e). v2 model used in this run: {v2model}. "
                     "Tie: trace inclusion of real executions in the models; monitors: two holders, completed twice, lock leaked, lost waiter, FIFO.")
